@@ -137,6 +137,21 @@ func checkC20(env *kernel.Env) {
 				rows[failRow].v = nextV + 1000 + int64(step)
 				failRow = -1
 			}
+			if !rows[0].gen && env.Avoid("ok-insert-id-first-row") {
+				// known finding: with an explicit id in the first row the OK packet reports
+				// that id, not the first generated one; most runs keep generating rows first
+				for i := range rows {
+					if rows[i].gen {
+						rows[0], rows[i] = rows[i], rows[0]
+						if failRow == i {
+							failRow = 0
+						} else if failRow == 0 {
+							failRow = i
+						}
+						break
+					}
+				}
+			}
 			var parts []string
 			for _, r := range rows {
 				if omitID {
@@ -247,7 +262,16 @@ func checkC20(env *kernel.Env) {
 			if firstGen != 0 {
 				if int64(res.InsertID) != firstGen {
 					cls := "insert-id-not-first-generated"
-					if ignore && failRow >= 0 && rows[failRow].gen {
+					firstStored := -1
+					for i, r := range rows {
+						if _, ok := after[r.v]; ok && !(ignore && i == failRow) {
+							firstStored = i
+							break
+						}
+					}
+					if firstStored >= 0 && !rows[firstStored].gen && int64(res.InsertID) == after[rows[firstStored].v] {
+						cls = "insert-id-is-first-rows-explicit-value"
+					} else if ignore && failRow >= 0 && rows[failRow].gen {
 						cls = "insert-id-after-skipped-generated-row"
 					}
 					env.Fail("insert-id", cls, "%s: OkResult.InsertID = %d, the first generated value is %d", q, res.InsertID, firstGen)
